@@ -10,11 +10,13 @@ import (
 	"fmt"
 	"io/fs"
 	"os"
+	"os/signal"
 	"path/filepath"
 	"sort"
 	"strconv"
 	"strings"
 	"sync"
+	"syscall"
 	"testing"
 	"time"
 
@@ -111,6 +113,8 @@ func treeHash(root string) string {
 	return hex.EncodeToString(h.Sum(nil))
 }
 
+var wfNotes []string
+
 func TestVerifEngineChild(t *testing.T) {
 	if os.Getenv("VERIF_CHILD") != "1" {
 		t.Skip("not a child")
@@ -130,7 +134,41 @@ func TestVerifEngineChild(t *testing.T) {
 	straggler := os.Getenv("VERIF_STRAGGLER")
 	release, held, finished := make(chan struct{}), make(chan struct{}), make(chan struct{})
 	var heldOnce, finOnce sync.Once
+	// a record write that FAILS while the process lives on: from the nth "save.created" of a label until the next hook
+	// point the file-size limit of the process is a few bytes, so the write of that record's temporary file is cut
+	// short with EFBIG (the shape of ENOSPC / EDQUOT / EIO); VERIF_WRITEFAULT=label|nth
+	wfault := strings.Split(os.Getenv("VERIF_WRITEFAULT"), "|")
+	var wfm sync.Mutex
+	wfSeen, wfOn := 0, false
+	var wfSaved syscall.Rlimit
+	if len(wfault) == 2 {
+		signal.Ignore(syscall.SIGXFSZ)
+	}
 	verifhook.SetHandler(func(point string, args ...any) {
+		if len(wfault) == 2 {
+			wfm.Lock()
+			if wfOn {
+				syscall.Setrlimit(syscall.RLIMIT_FSIZE, &wfSaved)
+				wfOn = false
+			}
+			wfm.Unlock()
+			defer func() {
+				// after this hook's own log line has been written
+				if point == "save.created" && len(args) > 0 && fmt.Sprint(args[0]) == wfault[0] {
+					wfm.Lock()
+					wfSeen++
+					if n, _ := strconv.Atoi(wfault[1]); wfSeen == n && syscall.Getrlimit(syscall.RLIMIT_FSIZE, &wfSaved) == nil {
+						lim := syscall.Rlimit{Cur: 24, Max: wfSaved.Max}
+						if syscall.Setrlimit(syscall.RLIMIT_FSIZE, &lim) == nil {
+							wfOn = true
+							rep0 := "write-fault-armed:" + wfault[0]
+							wfNotes = append(wfNotes, rep0)
+						}
+					}
+					wfm.Unlock()
+				}
+			}()
+		}
 		if straggler != "" && len(args) > 0 && fmt.Sprint(args[0]) == straggler {
 			switch point {
 			case "run.loaded":
@@ -182,6 +220,7 @@ func TestVerifEngineChild(t *testing.T) {
 	})
 	if err != nil {
 		rep.LoadErr = err.Error()
+		rep.Notes = append(rep.Notes, wfNotes...)
 		write()
 		return
 	}
@@ -327,5 +366,6 @@ func TestVerifEngineChild(t *testing.T) {
 		rep.Ran = true
 	}
 	verifhook.At("phase", "done")
+	rep.Notes = append(rep.Notes, wfNotes...)
 	write()
 }
